@@ -7,7 +7,38 @@ CORPUS = [
     [("append", [b"x"]), ("reopen",), ("append", [b"y"]), ("reopen",), ("append", [b"z"]), ("reopen",)],
     [("append", [b"x"]), ("append", [b"y"]), ("reopen",), ("append", [b"z"]), ("append", [b"w"]), ("reopen",), ("get", 3)],
     [("append", [b"", b""]), ("reopen",), ("get", 0)],
+    # D24: hole of a clear starting behind a held empty block beyond the truncated end of the data store
+    [("append", [b"abc", b"de", b"", b""]), ("clear", 1, 2), ("get", 2), ("clear", 3, 4), ("get", 2), ("reopen",), ("get", 2)],
+    [("append", [b"abc", b"de", b"", b"", b"gh"]), ("clear", 4, 5), ("clear", 1, 2), ("clear", 3, 4), ("get", 2), ("reopen",)],
 ]
+
+
+def escalate(pair, h, res, r):
+    """search around a history on which model and crate disagree: reopen after every prefix, every crash point,
+    and continuations with equal-sized entries; returns violations found (with replays)"""
+    from crash import enumerate_crashes
+    found = []
+    cands = []
+    for k in range(1, len(h) + 1):
+        cands.append(h[:k] + [("reopen",)] + h[k:] + [("reopen",)])
+    for _ in range(40):
+        tail = epoch_history(r)
+        cands.append(h + tail)
+        k = r.randrange(1, len(h) + 1)
+        cands.append(h[:k] + tail)
+    for cand in cands:
+        res.count("escalation-histories")
+        v, _ = find_violation(pair, cand, probe="full")
+        if v is not None:
+            small = shrink(pair, cand, v.key, probe="full")
+            v2, _ = find_violation(pair, small, probe="full")
+            v2 = v2 or v
+            found.append(dict(key=v2.key, what=v2.what + " (found by escalation after a model/crate disagreement)",
+                              replay=dict(history=[op_json(o) for o in small], failing_step=v2.at)))
+            return found
+    vs = enumerate_crashes(pair, h, res, torn=False, rnd=r)
+    found.extend(vs[:1])
+    return found
 
 
 def main(tier, seed):
@@ -52,7 +83,16 @@ def main(tier, seed):
                                            replay=dict(history=[op_json(o) for o in small], failing_step=v2.at)))
                 if len(res.violations) >= 8:
                     break
+            if pair.disagreements and v is None and res.extra.get("escalations", 0) < 3:
+                # the model and the crate differ on this history although the list oracle is satisfied: search around
+                # it for an input on which the property itself fails (DESIGN 4.2 step 5)
+                res.extra["escalations"] = res.extra.get("escalations", 0) + 1
+                dis = pair.disagreements[:3]
+                for ev in escalate(pair, h, res, r):
+                    res.violations.append(ev)
+                pair.disagreements = dis
             res.disagreements.extend(pair.disagreements[:3])
+            pair.disagreements = []
         res.extra["commands_compared"] = pair.ncmp
     finally:
         pair.close()
